@@ -5,9 +5,11 @@
 -/
 import WrapModel.Model.Parse
 import WrapModel.Lemmas.Accounting
+import WrapModel.Lemmas.DeclSound
+import WrapModel.Lemmas.AgreeLemmas
 
 namespace WrapModel.Props.C07
-open WrapModel WrapModel.Parse
+open WrapModel WrapModel.Parse WrapModel.Tok
 
 /-- the parser is a total function: every input yields a tree or an error (no divergence) — by construction all
     recursion is on fuel; this states the interface -/
@@ -42,6 +44,66 @@ theorem C07_accepted_text_accounted (text : String) (m : Module) (h : parseModul
 theorem C07_module_ends_at_eof (n : Nat) (s : Lex.Src) (m : Module) (s' : Lex.Src) (h : (pmodule n).run s = .ok (m, s')) :
     s' = [] :=
   pmodule_ends n s m s' h
+
+/-! ### soundness: what was accepted is what the tree says (the converse of C01) -/
+
+/-- **C07, soundness on lexemes — types.**  Whatever canonical lexeme list the type reader accepts (any fuel, any
+    continuation), the lexemes it consumed are, token for token, the canonical printing `Spec.tyLex` of the type it
+    returned: no token was read and dropped, none was invented. -/
+theorem C07_type_sound (n : Nat) (ls rest : List Lexeme) (r : TypeRes) (hc : CanonL ls)
+    (h : runL (ptype n) ls = .ok r rest) :
+    ∃ consumed, ls = consumed ++ rest ∧ consumed.map lexTok = (Spec.tyLex r.ty).map lexTok := by
+  obtain ⟨tr, ht⟩ := runT_of_runL_ok h
+  obtain ⟨c, hls, hcm, _⟩ := consumed_tokens _ _ _ _ _ hc ht
+  exact ⟨c, hls, by rw [hcm]; exact (ptype_sound n _ _ _ _ hc ht).1⟩
+
+/-- **C07, soundness on lexemes — whole modules.**  If the module reader accepts a canonical lexeme list (words are
+    words, punctuation is punctuation; atoms only for what only atoms can be) and returns the tree `m`, then the list
+    IS — token for token — the canonical printing of `m` (`Spec.lexemes`): every token of the input is accounted for
+    in the tree.  Together with `C01_module_roundtrip_lexemes` (printing then reading gives the tree back) this makes
+    reader and printer mutually inverse on the dialect. -/
+theorem C07_accepted_lexemes_are_the_tree (n : Nat) (ls rest : List Lexeme) (m : Module) (hc : CanonL ls)
+    (h : runL (pmodule n) ls = .ok m rest) :
+    rest = [] ∧ ls.map lexTok = (Spec.lexemes m).map lexTok := by
+  obtain ⟨tr, ht⟩ := runT_of_runL_ok h
+  obtain ⟨c, hls, hcm, _⟩ := consumed_tokens _ _ _ _ _ hc ht
+  obtain ⟨hm, hr⟩ := pmodule_sound n _ _ _ _ hc ht
+  subst hr
+  refine ⟨rfl, ?_⟩
+  rw [hls, List.append_nil, hcm, hm]
+
+/-- **C07, soundness on text.**  Let `text` be ANY spelling (arbitrary white space and comments between the tokens) of
+    a canonical lexeme list on which the lexeme-level run does not get stuck (the domain of C12).  If the parser
+    accepts the text and returns `m`, the lexemes the text spells are exactly the canonical printing of `m`. -/
+theorem C07_accepted_text_is_the_tree (n : Nat) (ls : List Lexeme) (s : Lex.Src) (m : Module) (r : Lex.Src)
+    (hs : Spells ls s) (hc : CanonL ls) (hns : runL (pmodule n) ls ≠ .stuck)
+    (h : (pmodule n).run s = .ok (m, r)) :
+    ls.map lexTok = (Spec.lexemes m).map lexTok := by
+  obtain ⟨hok, herr⟩ := lift (pmodule n) hs
+  cases hr : runL (pmodule n) ls with
+  | ok m' rest =>
+    obtain ⟨s', hrun, _⟩ := hok m' rest hr
+    rw [hrun] at h
+    simp only [Except.ok.injEq, Prod.mk.injEq] at h
+    obtain ⟨rfl, _⟩ := h
+    exact (C07_accepted_lexemes_are_the_tree n ls rest m' hc hr).2
+  | err e => rw [herr e hr] at h; cases h
+  | stuck => exact absurd hr hns
+
+/-- nothing is dropped: two accepted canonical lexeme lists with the same tree are the same token sequence (the tree
+    determines every token of the input) -/
+theorem C07_tree_determines_tokens (n n' : Nat) (ls ls' r r' : List Lexeme) (m : Module) (hc : CanonL ls) (hc' : CanonL ls')
+    (h : runL (pmodule n) ls = .ok m r) (h' : runL (pmodule n') ls' = .ok m r') :
+    ls.map lexTok = ls'.map lexTok := by
+  rw [(C07_accepted_lexemes_are_the_tree n ls r m hc h).2, (C07_accepted_lexemes_are_the_tree n' ls' r' m hc' h').2]
+
+/-- non-vacuity: a concrete canonical lexeme list that is accepted, and the conclusion evaluated on it -/
+example :
+    (match runL (pmodule 40) [.word "class", .word "A", .sym "{", .word "A", .sym "(", .word "int", .word "x", .sym ")", .sym ";",
+        .sym "}", .sym ";"] with
+      | .ok m [] => ([Lexeme.word "class", .word "A", .sym "{", .word "A", .sym "(", .word "int", .word "x", .sym ")", .sym ";",
+          .sym "}", .sym ";"].map lexTok == (Spec.lexemes m).map lexTok)
+      | _ => false) = true := by decide
 
 def errIs (r : Except Err Module) (e : Err) : Bool :=
   match r with
